@@ -49,7 +49,7 @@ def model(v, tier):
         def f():
             name = base if not subs else "%s#%d" % (base, i)
             path = os.path.join(SPEC, "cfg", base) if not subs else _cfg(base, "t%d_%s" % (i, base), subs)
-            return name, tlc_must_pass(name, "Apply.tla", path, timeout=to, workers=wk, metaname="C10_m%d" % i)
+            return name, tlc_must_pass(name, "Apply.tla", path, timeout=to, workers=wk, metaname="C10_m%d" % i, heap="4g")
         return f
     for name, r in _par([job(i, b, s) for i, (b, s) in enumerate(cfgs)], 4):
         v.add_model(name, r)
@@ -64,7 +64,7 @@ def model(v, tier):
             if base == "Apply_global.cfg":
                 subs.append(("N0s = {0, 1, 2, 3, 4}", "N0s = {0, 1, 2, 3}"))
             return mut, base, tlc_must_pass("mutant " + mut, "Apply.tla", _cfg(base, "mut_%s.cfg" % mut, subs), timeout=600,
-                                            workers=2, metaname="C10_mut_" + mut)
+                                            workers=2, metaname="C10_mut_" + mut, heap="2g")
         return f
     muts = MUTANTS if tier == "thorough" else [m for m in MUTANTS if m[0] not in ("no_wait", "no_reserve")]
     for mut, base, r in _par([mjob(m, b) for m, b in muts], 5):
@@ -135,12 +135,28 @@ def prepare(path, out):
             "queues": queues}
 
 
+def _vt(body, h, metaname):
+    """vlib.validate_trace with a bounded heap (several validations run in parallel)"""
+    path = body + ".hdr.ndjson"
+    hdr = dict(h); hdr["e"] = "Header"
+    with open(path, "w") as f:
+        f.write(json.dumps(hdr) + "\n")
+        f.write(open(body).read())
+    r = tlc("ApplyTrace.tla", "ApplyTrace.cfg", workers=1, timeout=900, env={"TRACE": path}, dfs=True, metaname=metaname, heap="2g")
+    if r.timeout:
+        raise Broken("trace validation timed out (%s)" % body)
+    if r.rc != 0 and r.violated is None and not r.accepted:
+        raise Broken("TLC failed during trace validation of %s (rc=%s):\n%s" % (body, r.rc, r.out[-3000:]))
+    r.trace_with_header = path
+    return r
+
+
 def _validate(tr, tag):
     body = tr + ".prep"
     h = prepare(tr, body)
-    r = validate_trace("ApplyTrace.tla", "ApplyTrace.cfg", body, timeout=900, metaname="C10_tr" + tag, header=h)
+    r = _vt(body, h, "C10_tr" + tag)
     if not r.accepted:
-        r = validate_trace("ApplyTrace.tla", "ApplyTrace.cfg", body, timeout=900, metaname="C10_trb" + tag, header=h)
+        r = _vt(body, h, "C10_trb" + tag)
     return r
 
 
@@ -229,8 +245,12 @@ def run(tier, seed):
     v.notes["binding"] = ("every atomic on da_index/da_todo/da_thr_cnt/da_event (any dispatch_apply_t, by address + incarnation), "
                           "Call/Ret/Start/End, and dq_state of the custom queues are logged actions of ApplyTrace.tla; silent: "
                           "root-queue push/pop of helper continuations, futex wake, the plain dq_width read of a width-1 level")
-    model(v, tier)
-    traces(v, tier, seed)
+    # the model-checking half and the implementation half are independent: run them side by side
+    with ThreadPoolExecutor(max_workers=2) as ex:
+        fm = ex.submit(model, v, tier)
+        ft = ex.submit(traces, v, tier, seed)
+        ft.result()
+        fm.result()
     return v.finish()
 
 
